@@ -157,10 +157,10 @@ def build_cases(tier, seed, wd, run):
     for u in universes:
         gs, r = dump_universe(u, wd)
         tlc_results.append(r)
-        if tier == "quick" and u in ("U3a", "U3b"):
-            # the quick tier takes a seeded sample of the two larger universes (three-symbol right-hand sides; a third
-            # nonterminal), the thorough tier all of them
-            gs = rng.sample(gs, 1400 if u == "U3a" else 800)
+        if tier == "quick" and u == "U3a":
+            # the quick tier takes a seeded sample of the largest universe (three-symbol right-hand sides; 14 535 grammars),
+            # the thorough tier all of it; U3b (a third nonterminal; 4 371 grammars) is run completely in both
+            gs = rng.sample(gs, 4000)
         for G in gs:
             pres = grammar.present(G, rng)
             # vary declaration order of nonterminals (start need not come first) and terminals
@@ -172,13 +172,13 @@ def build_cases(tier, seed, wd, run):
                 rng.shuffle(pres["ts"])
             cases.append({"G": G, "pres": pres, "src": grammar.render(G, pres), "origin": u})
     cases += repo_cases()
-    nrand = 150 if tier == "quick" else 2500
+    nrand = 400 if tier == "quick" else 2500
     for _ in range(nrand):
         G = random_grammar(rng)
         pres = grammar.present(G, rng, payload=None)
         cases.append({"G": G, "pres": pres, "src": grammar.render(G, pres), "origin": "random"})
     seen = set()
-    for _ in range(1400 if tier == "quick" else 40000):
+    for _ in range(2500 if tier == "quick" else 40000):
         G = bracket_grammar(rng)
         key = json.dumps(G, sort_keys=True)
         if key in seen:
